@@ -54,8 +54,15 @@ def battery(rng, n: int):
             ks = [gen.rand_node(rng, 3) for _ in range(rng.randint(0, 4))]
             lines.append(f"render_list {enodes(ks)} 0 {es(chr(10))} T T")
         elif r == 2:
-            ks = [gen.rand_node(rng, 2, leaves=("text", "html", "robj")) for _ in range(rng.randint(0, 3))]
-            lines.append(f"head_content {enodes(ks)} 0")
+            if k % 16 == 2:
+                ks = [gen.rand_node(rng, 2, leaves=("text", "html", "robj")) for _ in range(rng.randint(0, 3))]
+                lines.append(f"head_content {enodes(ks)} 0")
+            else:
+                # payloads that compare/hash equal as Python values but render differently (str vs HTML vs a tag with that markup)
+                s = rng.choice(["<style>b{}</style>", "<title>T</title>", "a&b", gen.alias_string(rng, rng.choice([8, 48, 100]))])
+                for role in rng.sample(["text", "html", "robj"], 3):
+                    lines.append(f"head_content {enodes([(role, s)])} 0")
+                lines.append(f"head_content {enodes([('tag', 'style', True, [], [('text', 'b{}')])])} 0")
         elif r in (3, 4, 5, 6):
             t = with_deps(gen.rand_tag(rng, rng.randint(1, 5), leaves=("text", "html", "meta")))
             terms = c10.finish_terms([t])
@@ -78,6 +85,20 @@ def battery(rng, n: int):
             lines.append(f"render_tag {enode(('tag', 'div', True, [('title', ('p', s))] if rng.random() < 0.3 else [], [(role, s)]))} 0 {es(chr(10))}")
             other = {"text": "html", "html": "text", "robj": "text"}[role]
             lines.append(f"render_tag {enode(('tag', 'p', True, [], [(other, s), ('text', 'x')]))} 0 {es(chr(10))}")
+    # values with several whitespace-separated tokens / declarations handed to the class and style helpers in one call
+    # (an implementation that goes through a set shows hash-order dependence exactly here)
+    try:
+        from ops_attrs import chist_line
+        toks = ["btn", "btn-primary", "btn-lg", "a", "b", "c", "é", "x-1", "x-2", "w3", "zz", "q"]
+        for _ in range(max(8, n // 12)):
+            many = " ".join(rng.sample(toks, rng.randint(2, 6)))
+            init = [("class", ("p", " ".join(rng.sample(toks, rng.randint(0, 3)))))] if rng.random() < 0.6 else []
+            steps = [("ac", many, rng.random() < 0.3), ("hc", many.split()[0])]
+            if rng.random() < 0.5:
+                steps.insert(1, ("rc", many.split()[-1]))
+            lines.append(chist_line(init, steps))
+    except Exception:  # noqa: BLE001  (op family not present in this tree)
+        pass
     return lines
 
 
@@ -89,6 +110,18 @@ def run(tier: str) -> int:
                "(each digest of each process is compared with the model's); distinct by wire line")
     n = 240 if tier == "quick" else 600
     lines = battery(rng, n)
+    # corpus first: a sample of every op kind the other properties' generators produce (harness/mkbattery.py), so the
+    # whole public surface — attribute / class / css histories, child-list operations, display hook programs, JSX,
+    # JSON serialisation and extraction, dependency resolution — is evaluated across processes, not only rendering
+    cpath = os.path.join(core.VERIF, "corpus", "c18_battery.txt")
+    corpus = [l.rstrip("\n") for l in open(cpath, encoding="utf-8")] if os.path.exists(cpath) else []
+    if corpus and ck.driver is not None:
+        ans = ck.driver.run(corpus)
+        stale = sum(1 for a in ans if a.startswith("bad-op"))
+        corpus = [l for l, a in zip(corpus, ans) if not a.startswith("bad-op")]
+        ck.extra_cov["corpus_lines"] = len(corpus)
+        ck.extra_cov["corpus_stale_lines_skipped"] = stale
+        lines = corpus + lines
     # the in-process answer (also history dependent: this process has rendered many things before) and the model's
     impl = core.impl_many(lines)
     for l, im in zip(lines, impl):
